@@ -110,18 +110,25 @@ class Check:
             res = json.load(open(out))
         return p.returncode, res, p.stderr, last
 
-    def replay_case_fails(self, case_path, times=1):
-        """True if replaying the case file fails (violation or crash) `times` times in a row"""
-        for _ in range(times):
+    def replay_case_fails(self, case_path, times=1, need=None):
+        """True if replaying the case file fails (violation or crash) at least `need` of `times` times"""
+        need = times if need is None else need
+        fails = 0
+        for k in range(times):
             rc, res, err, _ = self.run_worker_sync("replay", ["--replay", case_path])
             if rc == 3:
                 self.harness_errors.append(res["harness_error"] if res else err)
                 return False
             if rc == 0:
-                if not (res and res["replayed"] and res["replayed"][0]["failed"]):
-                    return False
-            # any other rc: crash => failed
-        return True
+                if res and res["replayed"] and res["replayed"][0]["failed"]:
+                    fails += 1
+            else:
+                fails += 1   # crash
+            if fails >= need:
+                return True
+            if fails + (times - k - 1) < need:
+                return False
+        return fails >= need
 
     def replay_msg(self, case_path):
         rc, res, err, _ = self.run_worker_sync("replay", ["--replay", case_path])
@@ -144,7 +151,7 @@ class Check:
 
     def confirm_and_report(self, case, msg, key, tag=""):
         path = self.save_found(case, msg, key, tag)
-        if self.replay_case_fails(path, times=3):
+        if self.replay_case_fails(path, times=self.prop.CONFIRM_TRIES, need=self.prop.CONFIRM_NEED):
             self.violations.append((path, msg))
             return True
         self.notes.append("candidate failure did not reproduce 3x and was dropped: %s (%s)" % (path, msg))
